@@ -21,6 +21,7 @@ Shape grammar (all fields required):
   cond       idx of the component that produces the condition;  cond_file: None|str; cond_spell: 'abs'|'rel'
   consumers  list of {name, stage, refs: [[idx, method, file]]}   (outside consumers of looped components)
   store      bool  (store_flowir_to_disk argument)
+  reloads    list of k after which the instance is loaded again from its directory (restart); needs store=True
 """
 import re
 
